@@ -110,11 +110,38 @@ def build(workdir, pkg, race, ov):
     return out
 
 
-LIB_FRAME = re.compile(r"^(github\.com/libp2p/go-libp2p-pubsub[^\s(]*)")
+def _frames(block):
+    """[(function, file)] of one goroutine block of a Go crash dump."""
+    lines = block.strip().split("\n")
+    out = []
+    i = 1
+    while i < len(lines) - 1:
+        fn = lines[i].strip()
+        fl = lines[i + 1].strip()
+        if fl.startswith("/") or fl.startswith("_testmain") or re.match(r"^\S+\.go:\d+", fl):
+            if fn.startswith("created by "):
+                fn = fn[len("created by "):].split(" in goroutine")[0]
+            else:
+                j = fn.rfind("(")
+                if j > 0:
+                    fn = fn[:j]
+            out.append((fn, fl))
+            i += 2
+        else:
+            i += 1
+    return lines[0] if lines else "", out
+
+
+def _is_lib(fn, fl):
+    return fn.startswith("github.com/libp2p/go-libp2p-pubsub") and "_test.go" not in fl and "zz_verif" not in fl
+
+
+def _is_harness(fn, fl):
+    return "zz_verif" in fl or "/verif/harness" in fl
 
 
 def classify_crash(text):
-    """cause record of a crashed child from its stderr."""
+    """cause record of a crashed child from its output."""
     m = re.search(r"^(panic: .*|fatal error: .*)$", text, re.M)
     head = m.group(1) if m else "unknown crash"
     kind = "panic"
@@ -122,34 +149,33 @@ def classify_crash(text):
         kind = "goroutine_leak"
     elif head.startswith("fatal error"):
         kind = "fatal"
-    # find the first goroutine block after the header that has a library frame
     where = "unknown"
-    blocks = text[m.end():].split("\n\n") if m else []
-    want_lib_only = kind == "goroutine_leak"
-    for b in blocks:
-        lines = b.strip().split("\n")
-        if not lines or not lines[0].startswith("goroutine "):
-            continue
-        if kind == "goroutine_leak" and "synctest bubble" not in lines[0]:
-            continue
-        if kind == "goroutine_leak" and ("(durable)" not in lines[0]):
-            continue
-        found = None
-        for i in range(1, len(lines) - 1, 2):
-            fn = lines[i].strip()
-            fl = lines[i + 1].strip()
-            if fn.startswith("created by "):
-                fn = fn[len("created by "):]
-            mm = LIB_FRAME.match(fn)
-            if mm and "_test.go" not in fl:
-                found = mm.group(1)
-                break
-        if found:
-            where = found
-            break
-        if not want_lib_only and kind != "goroutine_leak":
-            # panic goroutine is the first block: stop after it
-            break
+    blocks = [b for b in text[m.end():].split("\n\n") if b.strip().startswith("goroutine ")] if m else []
+    if kind == "goroutine_leak":
+        wheres = []
+        for b in blocks:
+            hdr, fr = _frames(b)
+            if "synctest bubble" not in hdr or "(durable)" not in hdr:
+                continue
+            lib = [fn for fn, fl in fr if _is_lib(fn, fl)]
+            if lib:
+                wheres.append(lib[0])
+        if wheres:
+            where = sorted(set(wheres))[0]
+        else:
+            kind = "harness"  # only harness / dependency goroutines were left behind
+    elif blocks:
+        hdr, fr = _frames(blocks[0])
+        user = [(fn, fl) for fn, fl in fr if not (fn.startswith("runtime.") or fn.startswith("internal/") or fn.startswith("panic") or fn.startswith("sync.") or fn.startswith("testing."))]
+        if user and _is_harness(*user[0]):
+            kind = "harness"
+            where = user[0][0]
+        else:
+            lib = [fn for fn, fl in fr if _is_lib(fn, fl)]
+            if lib:
+                where = lib[0]
+            elif user:
+                where = user[0][0]
     return {"kind": kind, "where": where}, head
 
 
@@ -364,6 +390,8 @@ def do_check(prop, cfg, tier, seed, workdir, ov, t0, mutant, only_mon):
                 broken.append("%s shard %d: %s (%s)" % (m["name"], sh["shard"], sh["status"],
                                                          sh["crashes"][-1]["out"] if sh["crashes"] else ""))
             for cr in sh["crashes"]:
+                if cr["cause"].get("kind") == "harness":
+                    broken.append("%s case %s: harness crash: %s (%s)" % (m["name"], cr["case"], cr["head"], cr["out"]))
                 if cr["cause"].get("kind") in ("watchdog", "harness"):
                     continue
                 ms["crashes"] += 1
